@@ -128,7 +128,7 @@ def _xml_host(host: str):
         return pkg, part, "sst" if part.endswith("sharedStrings.xml") else "worksheet", "ANCHOR"
     if host == "pptx":
         from .writers import pptx as W_pptx
-        pkg = W_pptx.write_pptx({"slides": [{"shapes": [["tx", [["p", [["r", 1]]]]]]}]})
+        pkg = W_pptx.write_pptx({"kind": "deck", "slides": [{"shapes": [["text", [[["r", 1]]]]]}]})
         names = zipfile.ZipFile(io.BytesIO(pkg)).namelist()
         part = next(n for n in names if n.startswith("ppt/slides/slide") and n.endswith(".xml"))
         xml = zip_get(pkg, part).decode()
@@ -236,9 +236,10 @@ def build(construct: str, mag: int, pos: str, rng) -> dict:
             inner = (f'<dimension ref="A1:{_col(min(mag, 16384) - 1)}{mag}"/>'
                      '<sheetData><row r="1"><c r="A1" t="inlineStr"><is><t>v</t></is></c></row></sheetData>')
         else:
+            row = min(mag, 1048576) if pos in ("farcell", "farrow") else 2
+            col = _col(min(mag, 16384) - 1) if pos in ("farcell", "farcol") else "A"
             inner = ('<sheetData><row r="1"><c r="A1" t="inlineStr"><is><t>v</t></is></c></row>'
-                     f'<row r="{min(mag, 1048576)}"><c r="{_col(min(mag, 16384) - 1)}{min(mag, 1048576)}" t="inlineStr">'
-                     '<is><t>w</t></is></c></row></sheetData>')
+                     f'<row r="{row}"><c r="{col}{row}" t="inlineStr"><is><t>w</t></is></c></row></sheetData>')
         data = _xlsx_sheet(inner)
         return {"ext": "xlsx", "data": data, "usize": zip_usize(data), "note": note}
     # ---- XML entity / DTD constructs.  pos = "<kind>@<host>"
